@@ -151,12 +151,13 @@ def run_tables(ch):
     g_symoff = ch.pick('gnu.symoffset', [1, 2, 'middle', 'count'])
     g_bloom = ch.pick('gnu.bloom_size', [2, 1, 4])
     g_shift = ch.pick('gnu.bloom_shift', [6, 0, 5, 31])
+    g_desc = ch.pick('gnu.bucket_groups', ['ascending', 'descending']) == 'descending'
 
     names = _names(count, variant)
     symoff = {'middle': max(1, count // 2), 'count': count}.get(g_symoff, g_symoff)
     symoff = min(symoff, count)
     if hash_kind in ('both', 'gnu') and kind != 'ldynsym':
-        names = hashes.gnu_order(names, symoff, g_nb)
+        names = hashes.gnu_order(names, symoff, g_nb, g_desc)
     other_hi = ch.pick('st_other.high_bits', [False, True])      # bits above the visibility (processor-specific meaning)
     syms = [_sym_fields(i, n, cls, other_hi) for i, n in enumerate(names)]
     p = 1 if count > 1 else 0
